@@ -246,6 +246,8 @@ def run(ctx):
 
 def replay(ctx, obj):
     r = obj["replay"]
+    if "c01gen" in r:
+        return c01_gen.replay(ctx, obj)
     case = r["case"]
     case["forms"] = [dict(f, uops={int(k): v for k, v in f["uops"].items()} if isinstance(f["uops"], dict) else f["uops"]) for f in case["forms"]]
     if case.get("real"):
